@@ -167,7 +167,42 @@ class RaisingSeekSource(NonSeekableSource):
         raise OSError(29, 'Illegal seek')
 
 
-SEEKABLE_FLAVORS = {'declared': SeekableSource, 'duck': DuckSeekableSource, 'fileno': FilenoSeekableSource}
+class SeekReturnsNoneSource(DuckSeekableSource):
+    """seek() returns None (file-likes written before seek() was expected to return the position; some wrappers)."""
+
+    def seek(self, where, whence=0):
+        DuckSeekableSource.seek(self, where, whence)
+        return None
+
+
+class SeekReturnsArgSource(DuckSeekableSource):
+    """seek() returns its offset ARGUMENT rather than the new absolute position (a sloppy wrapper): only tell() is reliable."""
+
+    def seek(self, where, whence=0):
+        DuckSeekableSource.seek(self, where, whence)
+        return where
+
+
+def _payload_bytes(x, depth=0):
+    """Total size of the bytes-like objects held (directly or in plain containers) by `x`; None when there are none."""
+    if isinstance(x, (bytes, bytearray, memoryview)):
+        return len(x)
+    if depth > 4:
+        return None
+    if isinstance(x, dict):
+        x = list(x.values())
+    if isinstance(x, (list, tuple, set, frozenset)) or type(x).__name__ == 'deque':
+        tot, seen = 0, False
+        for y in list(x):
+            n = _payload_bytes(y, depth + 1)
+            if n is not None:
+                tot, seen = tot + n, True
+        return tot if seen else None
+    return None
+
+
+SEEKABLE_FLAVORS = {'declared': SeekableSource, 'duck': DuckSeekableSource, 'fileno': FilenoSeekableSource, 'seek_none': SeekReturnsNoneSource,
+                    'seek_arg': SeekReturnsArgSource}
 NONSEEKABLE_FLAVORS = {'bare': NonSeekableSource, 'declared': DeclaredNonSeekableSource, 'raising': RaisingSeekSource}
 
 
@@ -271,6 +306,29 @@ class NonSeekableSink(_SinkBase):
 
     def getvalue(self):
         return b''.join(self.chunks)
+
+
+class DeclaredNonSeekableSink(NonSeekableSink):
+    """A destination that SAYS it cannot seek (seekable() -> False) although seek() / tell() are there and work on a scratch
+    position - a tee, a running-hash or a compressing sink wrapped around a file.  What counts is the sequence of write() calls:
+    the library has to take the stream at its word and deliver every byte once, in order, without seeking."""
+
+    def __init__(self, world, label):
+        super().__init__(world, label)
+        self._pos = 0
+        self.seeks = 0
+
+    def seekable(self):
+        return False
+
+    def seek(self, where, whence=0):
+        self.seeks += 1
+        self.w.log.add('dst.seek', label=self.label, where=where, whence=whence)
+        self._pos = where if whence == 0 else (self._pos + where if whence == 1 else self.total + where)
+        return self._pos
+
+    def tell(self):
+        return self._pos
 
 
 # ---------------------------------------------------------------- OSUtils
@@ -599,6 +657,29 @@ class RecordingSubscriber(BaseSubscriber):
         self.w.log.add('cb.on_done.ret', label=self.label, sub=self.name)
 
 
+class InheritedSubscriber(RecordingSubscriber):
+    """A subscriber whose callbacks are all INHERITED: the leaf class defines none of its own (a project's base subscriber with
+    per-use subclasses that only carry data)."""
+
+
+class _CallbackMixin:
+    def on_queued(self, future, **kwargs):
+        return RecordingSubscriber.on_queued(self, future, **kwargs)
+
+    def on_progress(self, future, bytes_transferred, **kwargs):
+        return RecordingSubscriber.on_progress(self, future, bytes_transferred, **kwargs)
+
+    def on_done(self, future, **kwargs):
+        return RecordingSubscriber.on_done(self, future, **kwargs)
+
+
+class MixinSubscriber(_CallbackMixin, BaseSubscriber):
+    """A BaseSubscriber whose callbacks come from a mixin class."""
+
+    __init__ = RecordingSubscriber.__init__
+    _reenter = RecordingSubscriber._reenter
+
+
 _partial_classes = {}
 
 
@@ -670,9 +751,8 @@ class StageExecutor(ThreadPoolExecutor):
             tid = getattr(getattr(fn, '_transfer_coordinator', None), 'transfer_id', None)
             nbytes = None
             if self.stage == 'io':
-                data = (getattr(fn, '_main_kwargs', None) or {}).get('data')
-                if isinstance(data, (bytes, bytearray, memoryview)):
-                    nbytes = len(data)
+                # every bytes-like object reachable from the task's arguments (a task may carry one block, or a list / dict of blocks)
+                nbytes = _payload_bytes(getattr(fn, '_main_kwargs', None) or {})
             self.w.log.add('exec.submit', stage_of=self.stage, seq=seq, outstanding=self.outstanding, task=type(fn).__name__, tid=tid, nbytes=nbytes)
 
             def run(*a, **k):
